@@ -136,9 +136,69 @@ def ref_int(lit, negated):
     return None
 
 
+def ref_float_bits(lit):
+    """IEEE-754 bits of the correctly rounded (nearest, ties to even) value of a FLOAT literal, computed by
+    CPython (dtoa for decimal, float.fromhex for hexadecimal: independent of Go's strconv); None when the
+    value overflows (strconv.ParseFloat reports a range error, the parser rejects the literal)"""
+    import struct
+    try:
+        if len(lit) > 2 and lit[0] == "0" and lit[1] in "xX":
+            v = float.fromhex(lit)
+        else:
+            v = float(lit)
+    except (OverflowError, ValueError):
+        return None
+    if v in (float("inf"), float("-inf")) or v != v:
+        return None
+    return "x%016x" % struct.unpack(">Q", struct.pack(">d", v))[0]
+
+
+def float_node(lit):
+    b = ref_float_bits(lit)
+    return None if b is None else "(float %s %s)" % (hx(lit), b)
+
+
 # ------------------------------------------------------------------ trees
 # A generated node is (text_tokens, sexp, first) : list of token texts, intended S-expression,
 # kind of its first token (for the juxtaposition rule)
+
+DEC = "0123456789"
+HEXD = "0123456789abcdefABCDEF"
+
+
+def digits(r, n, alphabet, lead_zero_p=0.3):
+    out = "".join(r.choice(alphabet) for _ in range(n))
+    if n > 0 and r.random() < lead_zero_p:
+        z = r.randint(1, n)
+        out = "0" * z + out[z:]
+    return out
+
+
+def random_float_literal(r, max_digits=40, max_exp=400):
+    """a FLOAT literal of the lexer's shapes with mantissas far beyond the 53-bit / 17-digit precision"""
+    if r.random() < 0.5:                     # decimal: D+ . D*  [e[+-]D+]  |  D+ e[+-]D+
+        ip = digits(r, r.randint(1, 25), DEC)
+        k = r.random()
+        if k < 0.75:
+            lit = ip + "." + (digits(r, r.randint(1, max_digits), DEC, 0.4) if r.random() < 0.95 else "")
+            if r.random() < 0.4:
+                lit += "e" + r.choice(["", "+", "-"]) + str(r.randint(0, max_exp))
+        else:
+            lit = ip + "e" + r.choice(["", "+", "-"]) + str(r.randint(0, max_exp))
+        return lit
+    # hexadecimal: 0x H* . H*  [p[+-]D+]  |  0x H+ p[+-]D+
+    pre = r.choice(["0x", "0x", "0X"])
+    ip = digits(r, r.randint(0, max_digits), HEXD, 0.4)
+    fp = digits(r, r.randint(0 if ip else 1, max_digits), HEXD, 0.4)
+    k = r.random()
+    if k < 0.6:
+        lit = pre + ip + "." + fp
+        if r.random() < 0.5:
+            lit += "p" + r.choice(["", "+", "-"]) + str(r.randint(0, 1100))
+    else:
+        lit = pre + (ip or "1") + "p" + r.choice(["", "+", "-"]) + str(r.randint(0, 1100))
+    return lit
+
 
 class ExprGen:
     IDENTS = ["req.http.Host", "req.url", "var.s", "client.ip", "beresp.ttl", "a", "b", "x-y", "obj.status",
@@ -192,15 +252,27 @@ class ExprGen:
             lit = str(self.r.choice([0, 1, 2, 7, 10, 200, 404, 65535, 2147483647]))
         elif k < 0.6:
             lit = self.r.choice(["0x1F", "0XfF", "0x7FFFFFFFFFFFFFFF", "0755", "9223372036854775807", "0x0", "007", "0x00ff"])
-        else:
+        elif k < 0.8:
             lit = str(self.r.randint(0, 10 ** self.r.randint(1, 18)))
+        else:
+            while True:
+                lit = digits(self.r, self.r.randint(1, 25), DEC) if self.r.random() < 0.5 else \
+                    self.r.choice(["0x", "0X"]) + digits(self.r, self.r.randint(1, 25), HEXD)
+                if ref_int(lit, False) is not None:
+                    break
         return ([lit], "(int %d %s)" % (ref_int(lit, False), hx(lit)), "INT")
 
     def floatlit(self):
         self._c("float")
-        lit = self.r.choice(["1e3", "1.5e3", "1e-3", "1e+3", "0x1.8p3", "0xA.Bp3", "0x1.8", "0.000", "10.0", "1.",
-                             "%d.%d" % (self.r.randint(0, 999), self.r.randint(0, 999))])
-        return ([lit], "(float %s)" % hx(lit), "FLOAT")
+        k = self.r.random()
+        if k < 0.5:
+            lit = self.r.choice(["1e3", "1.5e3", "1e-3", "1e+3", "0x1.8p3", "0xA.Bp3", "0x1.8", "0.000", "10.0", "1.",
+                                 "%d.%d" % (self.r.randint(0, 999), self.r.randint(0, 999))])
+        else:
+            lit = random_float_literal(self.r)
+            while float_node(lit) is None:
+                lit = random_float_literal(self.r)
+        return ([lit], float_node(lit), "FLOAT")
 
     def rtime(self):
         self._c("rtime")
@@ -409,3 +481,291 @@ def escape_cases():
         out.append(("escape long " + e, '{"' + e + '"}', "(str %s 1 %s %s 4)" % (hx(raw), hx(""), hx(raw))))
         out.append(("escape delim " + e, '{xy"' + e + '"xy}', "(str %s 1 %s %s 8)" % (hx(raw), hx("xy"), hx(raw))))
     return out
+
+
+def literal_length_cases(rng, n):
+    """numeric literals at every length up to well beyond the precision limit: (label, text, intended sexp or None)"""
+    out = []
+    for i in range(n):
+        k = rng.random()
+        if k < 0.2:
+            lit = digits(rng, rng.randint(1, 25), DEC)
+        elif k < 0.4:
+            lit = rng.choice(["0x", "0X"]) + digits(rng, rng.randint(1, 25), HEXD)
+        else:
+            lit = random_float_literal(rng)
+        isint = not any(c in lit for c in ".p") and not ("e" in lit and not lit[:2] in ("0x", "0X"))
+        if lit[:2] in ("0x", "0X"):
+            isint = "." not in lit and "p" not in lit
+        neg = rng.random() < 0.3
+        if isint:
+            v = ref_int(lit, neg)
+            node = None if v is None else "(int %d %s)" % (v, hx(lit))
+        else:
+            node = float_node(lit)
+        text = ("-" if neg else "") + lit
+        if node is not None and neg:
+            node = "(prefix %s %s)" % (hx("-"), node)
+        out.append(("literal " + text, text, node))
+    # the precision boundary, systematically: 1 followed by k zeros and a 1 (hex, no exponent / with exponent)
+    for k in range(0, 41):
+        for tail in ("1", "8", "80000000001", "7fffffffff"):
+            for suffix in ("", "p0", "p-3", "p+10"):
+                lit = "0x1." + "0" * k + tail + suffix
+                out.append(("hexfloat " + lit, lit, float_node(lit)))
+                lit = "0x" + "0" * k + "1." + tail + suffix
+                out.append(("hexfloat " + lit, lit, float_node(lit)))
+                lit = "0x0." + "0" * k + tail + suffix
+                out.append(("hexfloat " + lit, lit, float_node(lit)))
+        lit = "0." + "0" * k + "1"
+        out.append(("decfloat " + lit, lit, float_node(lit)))
+        lit = "1" + "0" * k + ".5"
+        out.append(("decfloat " + lit, lit, float_node(lit)))
+        lit = "9007199254740993" + "0" * k + ".0"
+        out.append(("decfloat " + lit, lit, float_node(lit)))
+    return out
+
+
+def long_string_cases(rng):
+    """strings / escapes at lengths around the 4096-byte reader window and the 65536 boundary"""
+    out = []
+    for n in (4094, 4095, 4096, 4097, 8192, 65535, 65536, 65537):
+        plain = "".join(rng.choice("abcXYZ019 _-/.") for _ in range(n))
+        out.append(("dq plain %d" % n, '"' + plain + '"', "(str %s 0 %s %s 2)" % (hx(plain), hx(""), hx(plain))))
+        # escapes spread over the literal, one right at the end
+        parts = []
+        while sum(len(p) for p in parts) < n - 12:
+            parts.append(rng.choice(["a", "bc", "%20", "%u0041", "%u{1F600}", "%C3%A9", " ", "x" * rng.randint(1, 40)]))
+        raw = "".join(parts)
+        raw += "y" * (n - len(raw) - 3) + "%41"
+        val = ref_decode_escapes(raw.encode())
+        out.append(("dq escapes %d" % n, '"' + raw + '"', "(str %s 0 %s %s 2)" % (hx(val), hx(""), hx(raw))))
+        out.append(("long %d" % n, '{"' + raw + '"}', "(str %s 1 %s %s 4)" % (hx(raw), hx(""), hx(raw))))
+        out.append(("delim %d" % n, '{xy"' + raw + '"xy}', "(str %s 1 %s %s 8)" % (hx(raw), hx("xy"), hx(raw))))
+    # NUL truncation far into a long literal
+    raw = "a" * 5000 + "%00" + "b" * 5000
+    out.append(("dq nul 10003", '"' + raw + '"', "(str %s 0 %s %s 2)" % (hx("a" * 5000), hx(""), hx(raw))))
+    return out
+
+
+class ProgGen:
+    """programs with their intended tree: every compound construct nested in every other (blocks, if / else-if
+    chains, switch in a case of a switch, several subs), names drawn from SMALL pools so that equal case
+    labels / identifiers / goto labels recur in sibling, nested and following constructs"""
+    IDS = ["req.http.A", "var.s", "x"]
+    LABELS = ["a", "b", "c"]
+    GOTOS = ["l1", "l2"]
+    SUBS = ["vcl_recv", "f", "g"]
+
+    def __init__(self, rng, eg):
+        self.r = rng
+        self.eg = eg
+        self.stats = {}
+
+    def _c(self, k):
+        self.stats[k] = self.stats.get(k, 0) + 1
+
+    def expr(self, d=2, no_paren_first=False):
+        while True:
+            t, s, first = self.eg.expression(self.r.randint(0, d))
+            if no_paren_first and first == "LEFT_PAREN":
+                continue
+            return t, s
+
+    def lit(self, v):
+        return (['"%s"' % v], "(str %s 0 %s %s 2)" % (hx(v), hx(""), hx(v)))
+
+    def block(self, depth, in_case=False):
+        ss = [self.stmt(depth) for _ in range(self.r.choice([0, 1, 1, 2, 3]))]
+        return sum((t for t, _ in ss), []), "(%s)" % " ".join(s for _, s in ss)
+
+    def stmt(self, depth):
+        kinds = ["set", "unset", "esi", "restart", "log", "return", "call", "declare", "goto", "label", "funcall",
+                 "error", "add", "remove", "synthetic", "include"]
+        if depth > 0:
+            kinds = kinds[:6] + ["if", "if", "switch", "switch", "block"] * 2
+        k = self.r.choice(kinds)
+        self._c("stmt:" + k)
+        r = self.r
+        if k in ("set", "add"):
+            i, op = r.choice(self.IDS), r.choice(["=", "+=", "||="]) if k == "set" else "="
+            t, s = self.expr()
+            return ([k, i, op] + t + [";"], "(%s %s %s %s)" % (k, hx(i), hx(op), s))
+        if k in ("unset", "remove"):
+            i = r.choice(self.IDS)
+            return ([k, i, ";"], "(%s %s)" % (k, hx(i)))
+        if k in ("esi", "restart"):
+            return ([k, ";"], "(%s)" % k)
+        if k in ("log", "synthetic"):
+            t, s = self.expr()
+            return ([k] + t + [";"], "(%s %s)" % (k, s))
+        if k == "return":
+            m = r.random()
+            if m < 0.25:
+                return (["return", ";"], "(return 0 _)")
+            if m < 0.6:
+                t, s = self.expr()
+                return (["return", "("] + t + [")", ";"], "(return 1 %s)" % s)
+            t, s = self.expr(no_paren_first=True)
+            return (["return"] + t + [";"], "(return 0 %s)" % s)
+        if k == "call":
+            f = r.choice(self.SUBS)
+            if r.random() < 0.5:
+                return (["call", f, ";"], "(call %s)" % hx(f))
+            args = [self.expr(1) for _ in range(r.randint(0, 3))]
+            toks = ["call", f, "("]
+            for j, a in enumerate(args):
+                toks += a[0] + ([","] if j < len(args) - 1 or r.random() < 0.2 else [])
+            return (toks + [")", ";"], "(call %s%s)" % (hx(f), "".join(" " + a[1] for a in args)))
+        if k == "declare":
+            n, ty = "var." + r.choice(["s", "t"]), r.choice(["STRING", "INTEGER", "BOOL"])
+            if r.random() < 0.5:
+                return (["declare", "local", n, ty, ";"], "(declare %s %s _)" % (hx(n), hx(ty)))
+            t, s = self.expr()
+            return (["declare", "local", n, ty, "="] + t + [";"], "(declare %s %s %s)" % (hx(n), hx(ty), s))
+        if k == "goto":
+            g = r.choice(self.GOTOS)
+            return (["goto", g, ";"], "(goto %s)" % hx(g))
+        if k == "label":
+            # a label directly in front of a statement starting with `(` would be a call: every statement starts with a keyword / ident
+            g = r.choice(self.GOTOS) + ":"
+            return ([g], "(gotodest %s)" % hx(g))
+        if k == "funcall":
+            t, s, _ = self.eg.call(1)
+            return (t + [";"], "(funcall" + s[len("(call"):])
+        if k == "error":
+            m = r.random()
+            if m < 0.2:
+                return (["error", ";"], "(error _ _)")
+            code = r.choice([("404", "(int 404 %s)" % hx("404")), ("var.s", "(ident %s)" % hx("var.s"))])
+            if m < 0.5:
+                return (["error", code[0], ";"], "(error %s _)" % code[1])
+            t, s = self.expr(no_paren_first=True)
+            return (["error", code[0]] + t + [";"], "(error %s %s)" % (code[1], s))
+        if k == "include":
+            v = r.choice(["m1", "m2"])
+            semi = r.random() < 0.7
+            # without `;` the next token must not be `;` (never: statements do not start with it)
+            return (["include", '"%s"' % v] + ([";"] if semi else []), "(include (str %s 0 %s %s 2))" % (hx(v), hx(""), hx(v)))
+        if k == "block":
+            t, s = self.block(depth - 1)
+            return (["{"] + t + ["}"], "(block %s)" % s)
+        if k == "if":
+            ct, cs = self.expr()
+            bt, bs = self.block(depth - 1)
+            toks = ["if", "("] + ct + [")", "{"] + bt + ["}"]
+            an = []
+            for _ in range(r.choice([0, 0, 1, 2])):
+                kw = r.choice(["else if", "elseif", "elsif"])
+                ct2, cs2 = self.expr()
+                bt2, bs2 = self.block(depth - 1)
+                toks += kw.split(" ") + ["("] + ct2 + [")", "{"] + bt2 + ["}"]
+                an.append("(elif %s %s %s)" % (hx(kw), cs2, bs2))
+            alt = "_"
+            if r.random() < 0.5:
+                bt3, bs3 = self.block(depth - 1)
+                toks += ["else", "{"] + bt3 + ["}"]
+                alt = bs3
+            return (toks, "(if %s %s %s (%s) %s)" % (hx("if"), cs, bs, " ".join(an), alt))
+        if k == "switch":
+            m = r.random()
+            if m < 0.5:
+                i = r.choice(self.IDS)
+                ctl = ([i], "(ident %s)" % hx(i))
+            elif m < 0.7:
+                t, s, _ = self.eg.call(1)
+                ctl = (t, s)
+            elif m < 0.85:
+                ctl = self.lit(r.choice(self.LABELS))
+            else:
+                ctl = (["true"], "(bool 1)")
+            n = r.randint(1, 4)
+            dflt = r.randrange(n) if r.random() < 0.5 else -1
+            seen = set()
+            toks = ["switch", "("] + ctl[0] + [")", "{"]
+            cases = []
+            for j in range(n):
+                if j == dflt:
+                    toks += ["default", ":"]
+                    test = "_"
+                else:
+                    for _ in range(20):
+                        op, lab = r.choice(["==", "==", "~"]), r.choice(self.LABELS)
+                        if (op, lab) not in seen:
+                            break
+                    else:
+                        break
+                    if (op, lab) in seen:
+                        break
+                    seen.add((op, lab))
+                    lt, ls = self.lit(lab)
+                    toks += ["case"] + (["~"] if op == "~" else []) + lt + [":"]
+                    test = "(test %s %s)" % (hx(op), ls)
+                body = [self.stmt(depth - 1) for _ in range(r.choice([0, 1, 1, 2]))]
+                cases.append([test, body])
+            if not cases:
+                return self.stmt(depth)
+            out = []
+            real_dflt = -1
+            for j, (test, body) in enumerate(cases):
+                last = j == len(cases) - 1
+                ft = (not last) and r.random() < 0.3
+                if test == "_":
+                    real_dflt = j
+                out.append((test, body, "fallthrough" if ft else "break", ft))
+            # rebuild the token list in order (heads were appended eagerly above: redo cleanly)
+            toks = ["switch", "("] + ctl[0] + [")", "{"]
+            sx = []
+            for test, body, fin, ft in out:
+                if test == "_":
+                    toks += ["default", ":"]
+                else:
+                    op = bytes.fromhex(test.split('"')[1]).decode()
+                    lab = bytes.fromhex(test.split('"')[3]).decode()
+                    toks += ["case"] + (["~"] if op == "~" else []) + ['"%s"' % lab] + [":"]
+                for t, _ in body:
+                    toks += t
+                toks += [fin, ";"]
+                sx.append("(case %s (%s) %d)" % (test, " ".join([s for _, s in body] + ["(%s)" % fin]), ft))
+            toks += ["}"]
+            return (toks, "(switch %s (%s) %d)" % (ctl[1], " ".join(sx), real_dflt))
+        raise AssertionError(k)
+
+    def sub(self, depth):
+        name = self.r.choice(self.SUBS)
+        toks = ["sub", name]
+        params = []
+        if self.r.random() < 0.3:
+            ps = [(self.r.choice(["STRING", "INTEGER"]), self.r.choice(["p", "q"])) for _ in range(self.r.randint(0, 2))]
+            toks += ["("]
+            for j, (ty, nm) in enumerate(ps):
+                toks += [ty, nm] + ([","] if j < len(ps) - 1 else [])
+            toks += [")"]
+            params = ["(param %s %s)" % (hx(ty), hx(nm)) for ty, nm in ps]
+        ret = "_"
+        if self.r.random() < 0.3:
+            ty = self.r.choice(["BOOL", "STRING"])
+            toks += [ty]
+            ret = hx(ty)
+        ss = [self.stmt(depth) for _ in range(self.r.randint(1, 4))]
+        toks += ["{"] + sum((t for t, _ in ss), []) + ["}"]
+        return toks, "(sub %s (%s) %s (%s))" % (hx(name), " ".join(params), ret, " ".join(s for _, s in ss))
+
+    def program(self, depth):
+        ds = [self.sub(depth) for _ in range(self.r.randint(1, 3))]
+        return sum((t for t, _ in ds), []), "(%s)" % " ".join(s for _, s in ds)
+
+    def nested_switch_shapes(self):
+        """systematic: a switch nested in a case (first / middle / last clause) of a switch, depth 2 and 3,
+        with the nested labels recurring in the clauses that follow"""
+        out = []
+        for pos in range(3):
+            for op_in in ("==", "~"):
+                for op_out in ("==", "~"):
+                    inner = 'switch (x) { case %s"a": break; case %s"b": break; }' % ("~ " if op_in == "~" else "", "~ " if op_in == "~" else "")
+                    inner3 = 'switch (x) { case "c": %s break; default: break; }' % inner
+                    for body in (inner, inner3, "if (x) { %s } else { %s }" % (inner, inner), "{ %s }" % inner):
+                        clauses = ['case %s"%s": %s break;' % ("~ " if op_out == "~" else "", lab, body if j == pos else "esi;")
+                                   for j, lab in enumerate(["c", "a", "b"])]
+                        out.append('sub f { switch (var.s) { %s } switch (var.s) { case "a": break; } }' % " ".join(clauses))
+        return out
